@@ -256,4 +256,35 @@ def runLoop : Nat → State → Int → List (Nat × Int) → List (Nat × Int) 
         let acc' := (u, getNow (s'.comp u)) :: acc
         if anyRunning s' endT then runLoop fuel s' endT acc' else (acc'.reverse, .done, s')
 
+/-! ### the same loop with the listing order as a parameter (C05)
+
+`runLoop` scans `s.comps` in index order, i.e. the listing order is the index order.  To compare
+different listings of *one* composition without renaming indices, `runLoopOrd` takes the listing as a
+list of component indices: `sort(key=time)` is stable, so element 0 is the first component *in the
+listing* among the least advanced ones. -/
+
+def selectOrd (s : State) : List Nat → Option (Nat × Int) → Option (Nat × Int)
+  | [], best => best
+  | i :: r, best =>
+    match (s.comp i).kind with
+    | .pull => selectOrd s r best
+    | .time nw _ _ =>
+      match best with
+      | none => selectOrd s r (some (i, nw))
+      | some (_, bt) => if nw < bt then selectOrd s r (some (i, nw)) else selectOrd s r best
+
+def runLoopOrd (order : List Nat) : Nat → State → Int → List (Nat × Int) → List (Nat × Int) × RunEnd × State
+  | 0, s, _, acc => (acc.reverse, .outOfFuel, s)
+  | fuel+1, s, endT, acc =>
+    match (selectOrd s order none).map (·.1) with
+    | none => (acc.reverse, .done, s)
+    | some c0 =>
+      match updateRec s (s.comps.length + 1) c0 [] none with
+      | .error e => (acc.reverse, .err e, s)
+      | .ok none => (acc.reverse, .err .fuel, s)
+      | .ok (some u) =>
+        let s' := applyUpdate s u
+        let acc' := (u, getNow (s'.comp u)) :: acc
+        if anyRunning s' endT then runLoopOrd order fuel s' endT acc' else (acc'.reverse, .done, s')
+
 end Finam
